@@ -75,6 +75,7 @@ func c25Run(arg string) explore.HistFn {
 	max := int64(0)
 	mech := "all"
 	deep := false
+	sv := byte(5)
 	for _, kv := range strings.Split(arg, ",") {
 		switch {
 		case strings.HasPrefix(kv, "max="):
@@ -83,7 +84,15 @@ func c25Run(arg string) explore.HistFn {
 			mech = kv[5:]
 		case kv == "deep":
 			deep = true
+		case kv == "sv=4":
+			sv = 4 // the late subscriber l and the offline session o speak MQTT 3.1.1: a publisher's interval still bounds what they are sent
 		}
+	}
+	oConnect := func() ref.Packet {
+		if sv == 4 {
+			return world.ConnectPacket("o", 4, false)
+		}
+		return v5connect("o", false, 0, 600)
 	}
 	has := func(x string) bool { return mech == "all" || mech == x }
 	maxPubs, maxTicks, maxHk, maxAcks, maxSubs := 2, 4, 2, 2, 2
@@ -120,10 +129,10 @@ func c25Run(arg string) explore.HistFn {
 			h.do("s", sub(1, "x", 1))
 		}
 		if has("ret") {
-			h.connect("l", world.ConnectPacket("l", 5, true))
+			h.connect("l", world.ConnectPacket("l", sv, true))
 		}
 		if has("off") {
-			h.connect("o", v5connect("o", false, 0, 600))
+			h.connect("o", oConnect())
 			h.do("o", sub(1, "x", 1))
 			h.do("o", ref.Packet{Type: ref.DISCONNECT})
 		}
@@ -144,7 +153,7 @@ func c25Run(arg string) explore.HistFn {
 			if first && h.last && msg.eff > 0 && !msg.dead && nowMs() > msg.t0Ms {
 				counters["late_first_delivery_of_expiring_message_"+mechName]++
 			}
-			if msg.eff > 0 {
+			if msg.eff > 0 && !(sv == 4 && (who == "l" || who == "o")) { // an MQTT 3.1.1 receiver is sent no properties
 				remMs := msg.instantMs() - nowMs()
 				if remMs >= 1000 {
 					v, ok := p.Props.Num(ref.PMessageExpiry)
@@ -256,7 +265,7 @@ func c25Run(arg string) explore.HistFn {
 			case "conn":
 				m.conns++
 				m.oOnline = true
-				got := h.connect("o", v5connect("o", false, 0, 600))
+				got := h.connect("o", oConnect())
 				if len(got) == 0 || got[0].Type != ref.CONNACK || !got[0].SessionPresent {
 					h.violate("c25:offline-session-not-resumed", "o reconnected with Clean Start 0 inside its expiry interval but got %v", got)
 				}
@@ -328,12 +337,16 @@ func init() {
 		}
 		var scs []sc
 		if c.Quick() {
+			scs = append(scs, sc{"max=0,mech=off,sv=4", 5 * time.Second}, sc{"max=2,mech=ret,sv=4", 6 * time.Second})
 			for _, mx := range []string{"0", "2"} {
-				scs = append(scs, sc{"max=" + mx + ",mech=def", 18 * time.Second}, sc{"max=" + mx + ",mech=ret", 12 * time.Second}, sc{"max=" + mx + ",mech=off", 6 * time.Second})
+				scs = append(scs, sc{"max=" + mx + ",mech=off", 6 * time.Second}, sc{"max=" + mx + ",mech=ret", 11 * time.Second}, sc{"max=" + mx + ",mech=def", 14 * time.Second})
 			}
 		} else {
 			for _, mx := range []string{"0", "2", "1"} {
 				scs = append(scs, sc{"max=" + mx + ",mech=def,deep", 60 * time.Second}, sc{"max=" + mx + ",mech=ret,deep", 50 * time.Second}, sc{"max=" + mx + ",mech=off,deep", 40 * time.Second}, sc{"max=" + mx + ",mech=all", 70 * time.Second})
+			}
+			for _, mx := range []string{"0", "2"} {
+				scs = append(scs, sc{"max=" + mx + ",mech=off,sv=4,deep", 40 * time.Second}, sc{"max=" + mx + ",mech=ret,sv=4,deep", 40 * time.Second})
 			}
 		}
 		for _, s := range scs {
